@@ -183,38 +183,50 @@ def check(ctx):
         ctx.ob("R14-d", rs, "the queued tuple has 5 positions", len(tup.elts) == 5, detail=f"{len(tup.elts)} elements", by=("arity 5",))
     if tup is not None and len(tup.elts) == 5 and sname:
         ws = tup.elts[4]
-        # possible values of the scope variable by path: evaluate the if-tree assigning it
-        okc = False
-        detail = "cannot determine how the scope handed to the worker is selected"
+        # value of the scope variable on every path into the hand-over, against the facts that hold there
+        inner, outer = sname, f"{sname}._parent_scope"
         if isinstance(ws, ast.Name):
-            assigns = [n for n in own_walk(fn) if isinstance(n, ast.Assign) and len(n.targets) == 1 and getattr(n.targets[0], "id", None) == ws.id]
-            ifs = {id(enclosing(a, (ast.If,), stop=fn)) for a in assigns}
-            if len(assigns) == 2 and len(ifs) == 1:
-                iff = enclosing(assigns[0], (ast.If,), stop=fn)
-                res = {}
-                for ab, pn in itertools.product((True, False), (True, False)):
-                    v = evalbool(iff.test, {p_abandon: ab, f"{sname}._parent_scope is None": pn})
-                    if v is None:
-                        res = None
-                        break
-                    branch = iff.body if v else iff.orelse
-                    val = [a for a in assigns if a in branch]
-                    res[(ab, pn)] = ast.unparse(val[0].value) if val else "?"
-                if res is not None:
-                    exp = {(True, True): sname, (True, False): sname, (False, True): sname, (False, False): f"{sname}._parent_scope"}
-                    okc = res == exp
-                    detail = f"scope handed to the worker for (abandon_on_cancel, no parent scope): {res}; required {exp}"
-            elif len(assigns) == 1 and isinstance(assigns[0].value, ast.IfExp):
-                ie = assigns[0].value
-                res = {}
-                for ab, pn in itertools.product((True, False), (True, False)):
-                    v = evalbool(ie.test, {p_abandon: ab, f"{sname}._parent_scope is None": pn})
-                    res[(ab, pn)] = ast.unparse(ie.body if v else ie.orelse) if v is not None else "?"
-                exp = {(True, True): sname, (True, False): sname, (False, True): sname, (False, False): f"{sname}._parent_scope"}
-                okc = res == exp
-                detail = f"scope handed to the worker: {res}; required {exp}"
-        ctx.ob("R14-c", rs, "the thread is given the caller's enclosing scope unless abandoned (its own shielded scope would hide the caller's cancellation)", okc,
-               detail="" if okc else detail, by=("evalbool over abandon_on_cancel x parent-present",))
+            def is_assign(frag, node, name=ws.id):
+                n = node.node
+                return node.kind == "stmt" and isinstance(n, (ast.Assign, ast.AnnAssign, ast.AugAssign)) and \
+                    any(isinstance(t, ast.Name) and t.id == name for t in (n.targets if isinstance(n, ast.Assign) else [n.target]))
+
+            def step_w(st, e, c):
+                if c.is_exc:
+                    return st
+                if e == "assign":
+                    n = c.node.node
+                    return ast.unparse(n.value) if isinstance(n, (ast.Assign, ast.AnnAssign)) and n.value is not None else "?"
+                if e == "put":
+                    return judge(st, c.facts)
+                return st
+            spec = [("assign", [is_assign]), ("put", "$W.queue.put_nowait($T)")]
+            init = None
+        else:
+            def step_w(st, e, c):
+                if e == "put" and not c.is_exc:
+                    if isinstance(ws, ast.IfExp):
+                        return Bad("the scope handed to the worker is selected by an expression the rule cannot evaluate")
+                    return judge(ast.unparse(ws), c.facts)
+                return st
+            spec = [("put", "$W.queue.put_nowait($T)")]
+            init = None
+
+        def judge(val, facts):
+            if val == inner:
+                if F(p_abandon) in facts or F(f"{sname}._parent_scope is None") in facts:
+                    return val
+                return Bad(f"the thread is handed the call's own (shielded) scope `{inner}` although the call is not abandoned on cancel and an enclosing "
+                           "scope exists: from_thread.check_cancelled() and from_thread.run() would never see the caller's cancellation")
+            if val == outer:
+                if F(f"not {p_abandon}") in facts and F(f"{sname}._parent_scope is not None") in facts:
+                    return val
+                return Bad(f"the thread is handed `{outer}` on a path where the call may be abandoned on cancel or there may be no enclosing scope")
+            return Bad(f"the scope handed to the worker is `{val}`: required is the call's own scope when abandoning (or when there is no enclosing scope) and "
+                       "its direct parent otherwise - a scope further out ignores the caller's shields, none at all hides its cancellation")
+
+        ctx.paths("R14-c", rs, spec, step_w, init, None,
+                  instance="the thread is given the caller's directly enclosing scope unless abandoned (its own shielded scope would hide the caller's cancellation)")
     cc = ctx.fn("AsyncIOBackend.check_cancelled", A)
     check_walker(ctx, "R14-c", cc)
     src = ctx.sites(cc, "$S = threadlocals.current_cancel_scope")
